@@ -35,24 +35,27 @@ func parseHelp(out string) (p helpParsed, err error) {
 	p.sections = map[string][]helpRow{}
 	lines := strings.Split(out, "\n")
 	i := 0
-	for i < len(lines) && (strings.TrimSpace(lines[i]) == "" || strings.HasPrefix(lines[i], "Error: ")) {
-		if strings.HasPrefix(lines[i], "Error: ") {
+	// whatever precedes the usage line (the error message of a rejected invocation) is kept, its wording not judged
+	for i < len(lines) && !strings.HasPrefix(lines[i], "Usage: ") {
+		if strings.TrimSpace(lines[i]) != "" {
 			p.errLine = lines[i]
 		}
 		i++
 	}
-	if i >= len(lines) || !strings.HasPrefix(lines[i], "Usage: ") {
+	if i >= len(lines) {
 		return p, fmt.Errorf("no usage line")
 	}
 	p.usage = normWS(lines[i])
 	i++
 	cur := ""
+	textCol := 0
 	var desc []string
 	for ; i < len(lines); i++ {
 		l := lines[i]
 		t := strings.TrimSpace(l)
 		if t == "Arguments:" || t == "Options:" || t == "Commands:" {
 			cur = t
+			textCol = 0
 			p.order = append(p.order, t)
 			continue
 		}
@@ -71,23 +74,26 @@ func parseHelp(out string) (p helpParsed, err error) {
 		if cur == "footer" {
 			return p, fmt.Errorf("text after the footer: %q", l)
 		}
-		if !strings.HasPrefix(l, "  ") {
+		indent := len(l) - len(strings.TrimLeft(l, " \t"))
+		if indent == 0 {
 			return p, fmt.Errorf("unexpected line in section %s: %q", cur, l)
 		}
-		body := l[2:]
-		if strings.HasPrefix(body, " ") && !strings.HasPrefix(body, "    --") {
+		// a continuation row has an empty names column: its text starts in the text column of the rows above it
+		// (the table writer aligns the cells of a block), whereas names always start left of that column
+		if textCol > 0 && indent >= textCol {
 			rs := p.sections[cur]
 			if len(rs) == 0 {
 				return p, fmt.Errorf("continuation line without a row: %q", l)
 			}
-			rs[len(rs)-1].Text = normWS(rs[len(rs)-1].Text + " " + body)
+			rs[len(rs)-1].Text = normWS(rs[len(rs)-1].Text + " " + t)
 			continue
 		}
-		b := strings.TrimLeft(body, " ")
-		parts := twoSpRe.Split(b, 2)
-		r := helpRow{Names: normWS(parts[0])}
-		if len(parts) > 1 {
-			r.Text = normWS(parts[1])
+		loc := twoSpRe.FindStringIndex(t)
+		r := helpRow{Names: normWS(t)}
+		if loc != nil {
+			r.Names = normWS(t[:loc[0]])
+			r.Text = normWS(t[loc[1]:])
+			textCol = indent + loc[1]
 		}
 		p.sections[cur] = append(p.sections[cur], r)
 	}
